@@ -813,7 +813,13 @@ func (g *Gen) create(t *rapid.T, w *World, id uint64) Entry {
 		} else {
 			script = append(script, n, u)
 		}
-		switch pickW(t, "afterlogin", 1, 3, 1, 1, 6, 1) {
+		// the privileged profile makes more of the sessions operators: what KILL and GLINE do is
+		// only seen once an OPER has succeeded (seeds C01b, C01c)
+		operW := 1
+		if g.opt.Bias == "privilege" {
+			operW = 5
+		}
+		switch pickW(t, "afterlogin", 1, 3, 1, operW, 6, 1) {
 		case 5:
 			// a client that joins channels and then authenticates as a services link: a link that is
 			// a channel member itself (seed C14k: its end must take it out of its channels as well)
